@@ -167,6 +167,11 @@ def run_c09(chk):
     # priority then lies between the default 500 and those
     k2 = Knobs(envelope="asap", max_res=2, max_tasks=7, p_dep=0.4, p_container=0.9, p_inner=0.85, p_limits=0.1, dur_weeks=[3, 4])
     asts += [outer_priorities_only(gen.gen_project(chk.rng, k2), chk.rng) for _ in range(n // 5)]
+    # a family with alternatives on few resources: which candidate a task takes must not depend on work queued by tasks
+    # ranked below it (the added one least of all)
+    k3 = Knobs(envelope="asap", max_res=3, max_tasks=6, p_alt=0.7, p_team=0.0, p_dep=0.3, p_container=0.2, p_limits=0.0,
+               p_wh=0.15, p_leave=0.2, big_effort=0.5, dur_weeks=[3, 4])
+    asts += [gen.gen_project(chk.rng, k3) for _ in range(n // 4)]
     base = project_stream.run_projects(chk, asts, want_oracles=())
     dis = [{"stream": "project", "text": r["text"], "ast": r["ast"], "diffs": r["diffs"][:6]} for r in base if r["diffs"] and not r["skipped"]]
     plus = [add_lowest(p, chk.rng) for p in asts]
